@@ -342,6 +342,17 @@ META = {
 }
 
 
+# ---- timed wake-ups (set_thread_state_timed.cpp, this_thread::suspend(abs_time), execution_agent sleep/yield_k): third sub-agent.
+# ---- The two "finding" units of timed_spec.py are NOT run: at_timer deliberately throws "Timed suspension is currently not
+# ---- supported" in this tree (the timer chain is a stub), see DESIGN.md 10.4 ------------------------------------------------
+exec(open("/verif/specs/C02/timed_spec.py").read())
+UNITS += TIMED_UNITS
+for _k in ("trusted_base", "assumptions", "not_decided"):
+    META[_k] = list(META.get(_k, [])) + list(TIMED_META.get(_k, []))
+META["not_decided"] = [x for x in META["not_decided"] if not x.startswith("set_thread_state_timed / timer-based wake-ups")]
+STATIC = list(globals().get("STATIC", [])) + list(TIMED_STATIC)
+
+
 # ---- C01 units reused (added after seeded change C02-3 was missed): "the window in which the task has released the internal lock
 # ---- but has not yet finished switching off its worker" is closed by the worker's switch_status::store_state -> restore_state CAS,
 # ---- which must ignore state_ex (a waker may have changed it); those are the C01 units of the same name, run here as well
